@@ -2,6 +2,7 @@
 From Coq Require Import List ZArith Bool.
 From ChibiV Require Import Common.Words Gen.C15_Consts C15.Table C15.TableProofs C15.Obj C15.ObjProofs C15.ObjEqual C15.Graph Gen.C15_Equiv C15.Combined.
 From ChibiV Require C15.GraphProofs C15.GraphSpec C15.ObjSound C15.DefaultHash C15.DefaultHashProofs Gen.C15_OptHash.
+From ChibiV Require C15.Table2 C15.Table2Proofs C15.Run C15.RunProofs C15.Chain C15.ChainProofs.
 Import ListNotations.
 Local Open Scope Z_scope.
 
@@ -217,3 +218,72 @@ Theorem identity_hash_does_not_respect_eqv :
     DefaultHash.sem_hash DefaultHash.HIdentity x n <> DefaultHash.sem_hash DefaultHash.HIdentity y n.
 Proof. exact DefaultHashProofs.identity_hash_does_not_respect_eqv. Qed.
 Print Assumptions identity_hash_does_not_respect_eqv.
+
+(** ---- round 4 ---- *)
+
+(** Histories on TWO tables in the operation language of the correspondence runs (set!, delete!, update!/default and
+    update! with any procedure, copy continued on / kept aside, swap, an update that raises = no change, update! without
+    default = only a present key): after ANY history both tables are in the invariant and agree, lookup by lookup and in
+    size, with two INDEPENDENT association maps (a copy shares nothing with its original). *)
+Theorem two_table_histories_refine_maps : forall (K V : Type) (hashf : K -> nat -> nat) (eqf : K -> K -> bool),
+  (forall a, eqf a a = true) -> (forall a b, eqf a b = true -> eqf b a = true) ->
+  (forall a b c, eqf a b = true -> eqf b c = true -> eqf a c = true) ->
+  (forall a b n, eqf a b = true -> hashf a n = hashf b n) ->
+  forall ops : list (@Table2.op2 K V),
+    Table2Proofs.sim2 hashf eqf (Table2.run_table2 hashf eqf ops) (Table2.run_map2 eqf ops).
+Proof. exact @Table2Proofs.two_table_histories_refine_maps. Qed.
+Print Assumptions two_table_histories_refine_maps.
+
+(** the executable history functions that are cross-run against the implementation (Run.v) are these generic steps *)
+Theorem run_steps_are_generic_steps : forall kind keys tt mm cls o,
+  Run.ostep kind keys tt o = Table2.tstep2 (Run.hf kind keys) (Run.ef kind keys) tt (RunProofs.hop2 o) /\
+  Run.mstep' cls mm o = Table2.mstep2 (Run.cf cls) mm (RunProofs.hop2 o).
+Proof. exact (fun kind keys tt mm cls o => conj (RunProofs.ostep_is_tstep2 kind keys tt o) (RunProofs.mstep'_is_mstep2 cls mm o)). Qed.
+Print Assumptions run_steps_are_generic_steps.
+
+(** hash-table->alist / hash-table-fold / keys / values of a table related to a map: exactly the cells the map's lookups
+    return, no key twice (modulo the equivalence), as many as the size slot says. *)
+Theorem alist_is_graph_of_map : forall (K V : Type) (hashf : K -> nat -> nat) (eqf : K -> K -> bool),
+  (forall a, eqf a a = true) ->
+  (forall a b n, eqf a b = true -> hashf a n = hashf b n) ->
+  forall (t : @table K V) (m : @amap K V), TableProofs.sim hashf eqf t m ->
+    (forall e, In e (to_alist t) <-> mref eqf m (fst e) = Some e) /\
+    (forall k, (cnt eqf k (to_alist t) <= 1)%nat) /\
+    Z.of_nat (length (to_alist t)) = tsize t.
+Proof. exact @Table2Proofs.alist_graph. Qed.
+Print Assumptions alist_is_graph_of_map.
+
+(** POINTER LEVEL.  The bucket chains as spine pairs in a heap (Chain.v).  sexp_hash_table_delete's in-place unlinking
+    (head: bucket := cdr; otherwise walk to the predecessor and overwrite its cdr) applied to a chain of pairwise distinct
+    spine pairs yields a chain whose cells are [brem] of the cells (what Table.v's tdelete computes), allocates nothing,
+    touches no cell and no pair outside the chain. *)
+Theorem chain_delete_refines_brem : forall (K V : Type) (eqf : K -> K -> bool)
+  (fuel : nat) (h : @Chain.heap K V) (head : Chain.ptr) (as_ : list nat) (k : K),
+  Chain.is_chain h head as_ -> NoDup as_ -> (length as_ <= fuel)%nat ->
+  exists h' head' as',
+    Chain.chain_delete eqf fuel h head k = Some (h', head') /\
+    Chain.is_chain h' head' as' /\ NoDup as' /\
+    Chain.cells h' as' = brem eqf (Chain.cells h as_) k /\
+    (forall a, In a as' -> In a as_) /\
+    (forall a, Chain.scar (h' a) = Chain.scar (h a)) /\
+    (forall a, ~ In a as_ -> h' a = h a).
+Proof. exact @ChainProofs.chain_delete_refines_brem. Qed.
+Print Assumptions chain_delete_refines_brem.
+
+(** The variant of sexp_regrow_hash_table that MOVES the existing spine pairs into the new vector instead of consing
+    (seeded change C02-c2; gen/c15_consts.py accepts either loop and says which one the tree has): on a bucket vector
+    without sharing it computes exactly the functional [regrow] of Table.v, with the same pairs (none allocated, none
+    lost), untouched cells, and no effect outside the chains.  (No garbage collector in this model: that the pairs stay
+    reachable during a user hash procedure's callback is C02's clause.) *)
+Theorem regrow_relink_refines_regrow : forall (K V : Type) (hashf : K -> nat -> nat)
+  (fuel : nat) (h : @Chain.heap K V) (ov : list Chain.ptr) (ass : list (list nat)) (bs : list (list (K * V))),
+  Chain.heap_buckets h ov ass bs ->
+  (forall as_, In as_ ass -> (length as_ <= fuel)%nat) ->
+  exists h' nv ass',
+    Chain.regrow_relink hashf fuel h ov = Some (h', nv) /\
+    Chain.heap_buckets h' nv ass' (regrow hashf bs) /\
+    (forall a, In a (concat ass') <-> In a (concat ass)) /\
+    (forall a, Chain.scar (h' a) = Chain.scar (h a)) /\
+    (forall a, ~ In a (concat ass) -> h' a = h a).
+Proof. exact @ChainProofs.regrow_relink_refines_regrow. Qed.
+Print Assumptions regrow_relink_refines_regrow.
